@@ -109,7 +109,9 @@ def rk_name_id(ctx):
     mq = repo.fn(f"{F}:merge_qualifiers")
     ds = [{}, {"a": ["2", "1", "2"]}, {"a": ["3"], "b": ["x"]}, {"b": ["y", "x"], "c": ["z"]}, {"c": []},
           # values of different lengths: the documented order is plain string order, not "natural" / by length
-          {"a": ["10", "9"], "db_xref": ["GeneID:99", "GeneID:100"]}, {"db_xref": ["GeneID:1000", "X"], "b": ["exon10", "exon2"]}]
+          {"a": ["10", "9"], "db_xref": ["GeneID:99", "GeneID:100"]}, {"db_xref": ["GeneID:1000", "X"], "b": ["exon10", "exon2"]},
+          # values that differ in case, and values equal up to case: plain string order (upper case first), the same in every process
+          {"a": ["b", "B", "a"], "k": ["abc", "ABC", "Abc"]}, {"a": ["A", "c"], "k": ["aBC", "abd"]}]
     for a in ds:
         for b in ds:
             k, v = run(it, mq, [dict(a), dict(b)], {}, None)
@@ -120,6 +122,12 @@ def rk_name_id(ctx):
             want = {kk: sorted(vv) for kk, vv in want.items()}
             ok = k == "ok" and {kk: list(vv) for kk, vv in v.items()} == want
             r.check(ok, "C18.RK", mq.qual, f"merge {a} + {b}", f"merge_qualifiers({a}, {b}) -> {k}:{v}; key-wise sorted set union is {want}", mq)
+            if ok:
+                from ..interp import other_hash_seed
+                with other_hash_seed():
+                    k2, v2 = run(it, mq, [dict(a), dict(b)], {}, None)
+                r.check(k2 == "ok" and {kk: list(vv) for kk, vv in v2.items()} == want, "C18.RK", mq.qual, f"merge independent of the hash seed {a} + {b}",
+                        f"merge_qualifiers({a}, {b}) with every set iterated in the opposite order -> {k2}:{v2}; expected {want}", mq)
             if ok:
                 from ..interp import DDict
                 r.check(not (isinstance(v, DDict) and v.factory is not None) and all(isinstance(vv, list) for vv in v.values()),
